@@ -58,6 +58,11 @@ def mk_fields(rng, presence: int) -> dict:
                 n = rng.choice((1, 2, 3, 8, 16, 32, 33, 64, 100, 200))
                 v = bytes(rng.getrandbits(8) for _ in range(n))
             out[f'sigfield{i}'] = v
+    # the message is a stack item: all fields together stay below the item
+    # limit of the runs (1024), whatever the flag selects
+    while sum(map(len, out.values())) > 1000:
+        k = max(out, key=lambda x: len(out[x]))
+        out[k] = out[k][:len(out[k]) // 2]
     return out
 
 
